@@ -24,6 +24,7 @@ RULE = ("Each case queues 1-6 requests (GET/POST/PUT, bodies, each with a unique
         "as separate entries; (refusal) after an https->http Location no connection reaches the http target and no request for the next hop is "
         "sent anywhere; a request whose redirect cannot be followed gets the 3xx itself as its one entry and the requests queued "
         "behind it are answered as usual. "
+        "Payloads are given as body=, data= (JSON), fargs= (form) or not at all: each request on the wire and the request copy in its entry carry that request's own payload. Special peers include one that answers a drawn request completely with Connection: close and closes, against a client set up to reconnect (tymeout 0.5 or 1, advancing tyme): every request the peer answered completely has its entry, never a bogus one, one at a time as ever. "
         "Non-trivial: >= 3 requests queued and (>= 1 redirect hop or >= 1 delayed answer) with a response split over >= 2 reads. "
         "Distinct: digest of queue + peer script.")
 COMPONENTS = dict(real=["hio.core.http.clienting.Client/Requester/Respondent", "hio.core.tcp.clienting.Client/ClientTls", "OpenSSL engine (TLS cases)"],
